@@ -84,7 +84,8 @@ def gillespie_part(chk, sis, entry):
         expected_states = len(b1.all_keys(consts)) * len(b1.all_states(n, sis))
         if expected_states != eres.distinct:
             raise common.MachineryFailure("replay domain (%d states) differs from TLC's (%d)" % (expected_states, eres.distinct))
-        done = common.pool_run(b1.run_scenario, tasks, lambda r: bool(r["problems"]))
+        done = common.pool_run(b1.run_scenario, tasks, lambda r: bool(r["problems"]), is_settled=lambda r: bool(r.get("settled")))
+        common.report_settled(chk, [r for _, r in done])
         results = [r for _, r in done]
         if len(done) < len(tasks):
             chk.note("%s %s: stopped after %d of %d scenarios because enough failing scenarios were collected"
